@@ -30,6 +30,11 @@ def langrun(f, napps, nsess, maxreq):
             f.pairs.add(('langout', t['kind'], t['variant'] == 'default', ev['mode']))
         if i == 7:
             f.out.sample(dict(kind='request served from DbResource with translations', lang=ev['lang'], tags=ev['tags'], translated=ev['translated'][:6]))
+    # anti-vacuity: every kind of text (template, menu label, static symbol) must have been rendered, translated and not
+    seen = {(k[1], k[2]) for k in f.pairs if k[0] == 'langout'}
+    missing = [x for x in [(k, d) for k in 'TLS' for d in (True, False)] if x not in seen]
+    if missing:
+        raise core.Infra('lang-run rendered no %s (kind, default?) texts: the end-to-end language stage would be vacuous' % missing)
     for inv, idx, ev in viol:
         if inv.startswith('C18'):
             f.out.violation('%s violated end to end (DbResource over memDb): session language %r, tags %s, translations %s' % (inv, ev['lang'], ev['tags'], ev['translated']),
